@@ -405,6 +405,24 @@ def rust_c_mix(p: Project) -> None:
                 ('rust_on_c', 'meson-test-prereq'), ('c_on_rust', 'meson-test-prereq')]
 
 
+@entry('rust-cdylib-linked', ['rustc', 'gcc'], [{'buildtype': 'debug'}], {'buildtype': ['debug', 'release'], 'layout': LAYOUT},
+       'generate_rust_target for a shared library (cdylib) + generate_shsym / get_dependency_filename of the consumers',
+       'Rust shared_library(rust_abi: c) linked with link_with: into a C executable and into a Rust executable; whatever the consumers wait for must be produced')
+def rust_cdylib_linked(p: Project) -> None:
+    L = head(p, ['c', 'rust'])
+    L.append("rcore = shared_library('rcore', 'rcore.rs', rust_abi: 'c')")
+    L.append("cexe = executable('c_on_rcore', 'cuser.c', link_with: rcore)")
+    L.append("rexe = executable('r_on_rcore', 'ruser.rs', link_with: rcore)")
+    L.append("test('c_on_rcore', cexe)")
+    L.append("test('r_on_rcore', rexe)")
+    p.files['rcore.rs'] = '#[no_mangle]\npub extern "C" fn rcore_value() -> i32 { 42 }\n'
+    p.files['cuser.c'] = 'int rcore_value(void);\nint main(void) { return rcore_value() - 42; }\n'
+    p.files['ruser.rs'] = 'extern "C" { fn rcore_value() -> i32; }\nfn main() { std::process::exit(unsafe { rcore_value() } - 42); }\n'
+    p.files['meson.build'] = '\n'.join(L) + '\n'
+    p.expect = [('librcore.so', 'all'), ('c_on_rcore', 'all'), ('r_on_rcore', 'all'),
+                ('c_on_rcore', 'meson-test-prereq'), ('r_on_rcore', 'meson-test-prereq')]
+
+
 # ---------------------------------------------------------------------------
 # Java
 
@@ -561,6 +579,26 @@ def link_depends(p: Project) -> None:
     p.files['main.c'] = 'int vs_value(void);\nint main(void) { return vs_value() - 42; }\n'
     p.files['meson.build'] = '\n'.join(L) + '\n'
     p.expect = [('libvs.so', 'all'), ('vsuser', 'all'), ('vsuser', 'meson-test-prereq')]
+
+
+@entry('link-args-staged-library', ['gcc'], [{'layout': 'mirror'}], {'layout': LAYOUT, 'default_library': DEFLIB},
+       'guess_external_link_dependencies: an absolute library path in link_args that does not exist at configure time',
+       'a custom_target stages a prebuilt-style archive into <builddir>/staging (its declared output is a stamp only); an executable links it by '
+       'absolute path in link_args and waits for the stamp through link_depends:')
+def link_args_staged_library(p: Project) -> None:
+    L = head(p, ['c'])
+    L.append("vlib = static_library('vendorsrc', 'vendor.c', build_by_default: false, install: true)   # installed => a real (not thin) archive")
+    L.append("stage_dir = meson.current_build_dir() / 'staging' / 'lib'")
+    L.append("stage = custom_target('stage', input: vlib, output: 'stage.stamp', "
+             "command: [gen, '--copy', '@INPUT@', stage_dir / 'libvendor.a', '--copy', '@INPUT@', '@OUTPUT@'])")
+    L.append("vdep = declare_dependency(link_args: [stage_dir / 'libvendor.a'])")
+    L.append("exe = executable('staged', 'main.c', dependencies: vdep, link_depends: stage)")
+    L.append("exe2 = executable('staged2', 'main.c', link_args: [stage_dir / 'libvendor.a'], link_depends: stage)")
+    L.append("test('staged', exe)")
+    p.files['vendor.c'] = 'int vendor_value(void) { return 42; }\n'
+    p.files['main.c'] = 'int vendor_value(void);\nint main(void) { return vendor_value() - 42; }\n'
+    p.files['meson.build'] = '\n'.join(L) + '\n'
+    p.expect = [('staged', 'all'), ('staged2', 'all'), ('staged', 'meson-test-prereq')]
 
 
 @entry('link-depends-file-and-exe', ['gcc'], [{'layout': 'mirror'}], {'layout': LAYOUT},
